@@ -7,9 +7,10 @@ from .. import common as C
 from . import c17
 
 ID = "C18"
-MODULES = ["Helios.Props.C18", "Helios.Props.C17"]
+MODULES = ["Helios.Props.C18", "Helios.Props.C17", "Helios.Props.Facts"]
 THEOREMS = ["Helios.Cfg.validate_iff_documented", "Helios.Cfg.validate_first", "Helios.Cfg.accepted_breaker_live",
-            "Helios.Http.startup_fail_closed"]
+            "Helios.Http.startup_fail_closed",
+            "Helios.Facts.strategies_eq", "Helios.Facts.log_enums_eq"]
 
 # section variants: (yaml text, compact fields); index 0 is always a valid variant
 SERVER = [("server:\n  port: 8080\n", "port=8080"), ("server:\n  port: 1\n", "port=1"), ("server:\n  port: 65535\n  tls:\n    enabled: true\n    certFile: c.pem\n    keyFile: k.pem\n", "port=65535;tls=1;cert=c.pem;key=k.pem"),
